@@ -334,13 +334,28 @@ def compare(exp: dict, got: list, sc: dict, spec: dict, res: dict, phase: str) -
             if not ok:
                 if g == 0.0:
                     masked_atom = i in sc["mask"] or j in sc["mask"]
-                    reason = ("entry-equal-to-cutoff-zeroed" if cls == "equal" and not (masked_atom and phase == "masked") else
-                              "masked-entry-zero-after-slm-end" if masked_atom and phase == "full" else "entry-at-or-above-cutoff-zeroed")
+                    reason = ("masked-entry-zero-after-slm-end" if masked_atom and phase == "full" else
+                              "entry-equal-to-cutoff-zeroed" if cls == "equal" else "entry-above-cutoff-zeroed")
                 else:
                     other = res["U"][i - 1][j - 1] if e[0] == "c" else (spec["custom"][i - 1][j - 1] if spec["custom"] else None)
                     reason = "wrong-source" if other is not None and abs(g - other) <= 1e-5 * abs(other) else "entry-changed"
                 bad.append((reason, [i, j, g, want]))
     return bad
+
+
+PRIORITY = ["wrong-shape", "asymmetric", "diagonal-nonzero", "wrong-source", "entry-changed", "below-cutoff-entry-kept", "entry-equal-to-cutoff-zeroed",
+            "entry-above-cutoff-zeroed", "masked-entry-not-zero", "masked-entry-zero-after-slm-end"]
+
+
+def main_reason(bad: list, sc: dict) -> str:
+    """One canonical reason per wrong matrix: entries of pairs WITHOUT a masked atom are judged first
+    (they separate source / cutoff faults from SLM faults)."""
+    unmasked = [b for b in bad if len(b[1]) >= 2 and b[1][0] not in sc["mask"] and b[1][1] not in sc["mask"]]
+    pool = unmasked or bad
+    for r in PRIORITY:
+        if any(b[0] == r for b in pool):
+            return r
+    return pool[0][0]
 
 
 class Reporter:
@@ -496,8 +511,11 @@ def run(ctx: Ctx) -> None:
                     if which == "other":
                         rep.violation("direct:neither-masked-nor-full-at-slm-end", "at the SLM end the matrix is neither the masked nor the full one", {"scenario": pub, "t": t, "got": got})
                     continue
-                for reason, wit in compare(exp, got, sc, spec, res, phase):
-                    rep.violation(f"direct:{reason}", f"SequenceData.interaction_matrix({t!r}) ({phase} phase, SLM end {e_ns}): {reason} at {wit}",
+                bad = compare(exp, got, sc, spec, res, phase)
+                if bad:
+                    other_ok = em != ef and not compare(ef if phase == "masked" else em, got, sc, spec, res, "full" if phase == "masked" else "masked")
+                    reason = ("full-matrix-before-slm-end" if phase == "masked" else "masked-matrix-after-slm-end") if other_ok else main_reason(bad, sc)
+                    rep.violation(f"direct:{reason}", f"SequenceData.interaction_matrix({t!r}) ({phase} phase, SLM end {e_ns}): {reason}: {bad[:4]}",
                                   {"scenario": pub, "t": t, "got": got, "expected_symbolic": {f"{p[0]},{p[1]}": list(v) for p, v in exp.items()}, "reference_register_matrix": res["U"]})
         # ---- steps
         if "raises" in res:
@@ -522,8 +540,11 @@ def run(ctx: Ctx) -> None:
             need = "masked" if b <= e_ns else "full" if a >= e_ns else "either"
             ok = name != "other" and (need == "either" or name in (need, "both"))
             if not ok:
-                reasons = sorted({x[0] for x in (bm if need == "masked" else bf if need == "full" else bm + bf)})
-                rep.violation(f"step:{fam}:wrong-matrix:{'+'.join(reasons) or 'other'}", f"step {i} [{a},{b}] of {fam} (SLM end {e_ns}) uses a matrix that is not the {need} one: {reasons}",
+                if name in ("masked", "full"):
+                    reason = "full-matrix-before-slm-end" if need == "masked" else "masked-matrix-after-slm-end"
+                else:
+                    reason = main_reason(bm if need == "masked" else bf if need == "full" else (bm if len(bm) <= len(bf) else bf), sc)
+                rep.violation(f"step:{fam}:{reason}", f"step {i} [{a},{b}] of {fam} (SLM end {e_ns}, query at {st['tq']}) uses a matrix that is not the {need} one: {reason}",
                               {"scenario": pub, "step": i, "used": st["matrix"], "tq": st["tq"]})
         if kk is not None:
             ms = model[kk]["steps"]
